@@ -130,6 +130,10 @@ func (s *ScopeSchema) ApplyNamespace(externalObjects map[string]*ObjectSchema, n
 	// When the namespace is the default namespace, each scope should pass itself down.
 	var objectsToApply map[string]*ObjectSchema
 	if namespace == SelfNamespace {
+		// Scopes nested under lists, maps and one-ofs are only reached through this traversal. An inconsistent
+		// root definition is reported here (UnserializeScope and UnserializeSchema turn the panic into an
+		// error) rather than on first use, where e.g. a list asking for the reflected type would panic.
+		s.RootObject()
 		objectsToApply = s.Objects()
 	} else {
 		objectsToApply = externalObjects
